@@ -3935,8 +3935,14 @@ fn save_index(path: &Path, index: &ContinuityIndexV1) -> io::Result<()> {
     let payload = serde_json::to_string_pretty(index)
         .map_err(|err| io::Error::new(io::ErrorKind::InvalidData, err))?;
     let tmp = path.with_extension("json.tmp");
+    #[cfg(rip_verif)]
+    rip_kernel::verif::point("index.tmp");
     fs::write(&tmp, payload)?;
+    #[cfg(rip_verif)]
+    rip_kernel::verif::point("index.rename");
     fs::rename(tmp, path)?;
+    #[cfg(rip_verif)]
+    rip_kernel::verif::point("index.done");
     Ok(())
 }
 
